@@ -277,7 +277,15 @@ macro_rules! rdata_types {
                     ) => {
                         self_inner.cmp(other_inner)
                     }
-                    _ => self.rtype().cmp(&other.rtype())
+                    // Only the Unknown variant can have the record type
+                    // of another variant. Two values of different
+                    // variants are never equal, so order the Unknown
+                    // variant behind the proper one.
+                    _ => self.rtype().cmp(&other.rtype()).then_with(|| {
+                        matches!(self, ZoneRecordData::Unknown(_)).cmp(
+                            &matches!(other, ZoneRecordData::Unknown(_))
+                        )
+                    })
                 }
             }
 	}
@@ -308,7 +316,14 @@ macro_rules! rdata_types {
                     ) => {
                         self_inner.partial_cmp(other_inner)
                     }
-                    _ => self.rtype().partial_cmp(&other.rtype())
+                    // See the Ord impl.
+                    _ => Some(
+                        self.rtype().cmp(&other.rtype()).then_with(|| {
+                            matches!(self, ZoneRecordData::Unknown(_)).cmp(
+                                &matches!(other, ZoneRecordData::Unknown(_))
+                            )
+                        })
+                    )
                 }
             }
         }
@@ -805,7 +820,15 @@ macro_rules! rdata_types {
                     ) => {
                         self_inner.cmp(other_inner)
                     }
-                    _ => self.rtype().cmp(&other.rtype())
+                    // Only the Unknown variant can have the record type
+                    // of another variant. Two values of different
+                    // variants are never equal, so order the Unknown
+                    // variant behind the proper one.
+                    _ => self.rtype().cmp(&other.rtype()).then_with(|| {
+                        matches!(self, AllRecordData::Unknown(_)).cmp(
+                            &matches!(other, AllRecordData::Unknown(_))
+                        )
+                    })
                 }
             }
         }
@@ -851,7 +874,14 @@ macro_rules! rdata_types {
                     ) => {
                         self_inner.partial_cmp(other_inner)
                     }
-                    _ => self.rtype().partial_cmp(&other.rtype())
+                    // See the Ord impl.
+                    _ => Some(
+                        self.rtype().cmp(&other.rtype()).then_with(|| {
+                            matches!(self, AllRecordData::Unknown(_)).cmp(
+                                &matches!(other, AllRecordData::Unknown(_))
+                            )
+                        })
+                    )
                 }
             }
         }
